@@ -477,6 +477,34 @@ func one(h *harness.H, layer string, c int, maint bool) {
 	// 1. uncrashed reference run on a plain MemFS with the full read oracle
 	_, pre := cskit.RunScript(s, cskit.RunOpts{CheckGC: true, FinalReads: 6, FinalSeed: 99, Prefix: "pre"})
 	if len(pre) > 0 {
+		// A script whose live run already disagrees with the read oracle belongs to C01/C04.
+		// When the live run agrees in full and only the state found after a clean Close and
+		// reopen differs, the loss happened between memory and disk: that is this property's
+		// last crash point (power lost right after Close returned).
+		onlyReopen := true
+		classes := map[string]bool{}
+		for _, f := range pre {
+			switch {
+			case f.Sig == "pre:reopen-failed":
+				classes["reopen-failed"] = true
+			case f.Mismatch != nil && f.Mismatch.Reopened:
+				classes[f.Mismatch.Class] = true
+			default:
+				onlyReopen = false
+			}
+		}
+		if onlyReopen {
+			h.Eval()
+			var cl []string
+			for k := range classes {
+				cl = append(cl, k)
+			}
+			sort.Strings(cl)
+			h.Violation(layer, c, "c02:after-clean-close:"+strings.Join(cl, "+"),
+				"the uncrashed run agrees with the model while the DB is open, but after Close and reopen reads differ: "+pre[0].What,
+				map[string]any{"script": s, "findings": pre})
+			return
+		}
 		h.Count("scripts_excluded_uncrashed_oracle_disagrees", 1)
 		return
 	}
